@@ -328,6 +328,33 @@ func (c *aliasCtx) history(nops int) string {
 	return fmt.Sprintf("mkhc %s\n  [%s]", tr.gallina(), strings.Join(steps, ";\n   "))
 }
 
+// the rows an importer hands out are independent of one another, also when GetRow is asked twice for one line
+func (c *aliasCtx) getRowTwiceOracle() {
+	tpl := jsonline.NewTemplate().WithNumeric("n").WithString("s")
+	imp := tpl.GetImporter(strings.NewReader("{\"n\":1,\"s\":\"a\",\"x\":[1]}\n{\"n\":2}\n"))
+	p, msg := guard(func() {
+		for imp.Import() {
+			r1, e1 := imp.GetRow()
+			r2, e2 := imp.GetRow()
+			if e1 != nil || e2 != nil || r1 == nil || r2 == nil {
+				continue
+			}
+			before := c.snapshot(aliasObj{row: r2})
+			r1.Set("s", "changed")
+			_ = r1.ImportAtKey("n", 99)
+			r1.Set("new", true)
+			c.rep.OracleChecks["C15"]++
+			if after := c.snapshot(aliasObj{row: r2}); after != before {
+				c.violate("C15", fmt.Sprintf("alias: two GetRow() calls for one line return rows that are not independent: writing one changed the other: %s -> %s", before, after),
+					map[string]interface{}{"stream": "alias", "history": "imp.Import(); r1 = imp.GetRow(); r2 = imp.GetRow(); r1.Set / ImportAtKey"})
+			}
+		}
+	})
+	if p {
+		c.violate("C17", "panic: "+msg, map[string]interface{}{"stream": "alias", "history": "GetRow twice"})
+	}
+}
+
 // byte-slice columns: a clone (CloneRow, CreateRow(row), what Export does) holds the same bytes as its source;
 // importing into the clone — a shorter payload, a longer one, a text that is not base64, through ImportAtKey,
 // ImportAtPath or UnmarshalJSON — must leave the source's bytes as they were
@@ -469,5 +496,6 @@ func aliasStream(seed uint64, tier string, outDir string, props map[string]bool,
 	for i := 0; i < 1+nh/50; i++ {
 		c.binaryCloneOracle()
 	}
+	c.getRowTwiceOracle()
 	return rep
 }
